@@ -66,6 +66,9 @@ func WireMain(args []string) int {
 		fmt.Fprintln(os.Stderr, err)
 		return 2
 	}
+	// one Message object is reused for every case, as the engine's resend path does: whatever an
+	// earlier parse left behind must not show up in a later one
+	shared := quickfix.NewMessage()
 	err = tr.ReadLines(*in, func(c tr.M) error {
 		raw := codes(c["bytes"])
 		row := tr.M{}
@@ -83,7 +86,7 @@ func WireMain(args []string) int {
 					row["panic"] = fmt.Sprintf("%v", r)
 				}
 			}()
-			m := quickfix.NewMessage()
+			m := shared
 			var e error
 			switch tr.Str(c, "dict") {
 			case "app":
@@ -117,6 +120,8 @@ func WireMain(args []string) int {
 						fm.GetBytes(t)
 						rg := quickfix.NewRepeatingGroup(t, groupTemplate())
 						fm.GetGroup(rg)
+						rg2 := quickfix.NewRepeatingGroup(t, quickfix.GroupTemplate{quickfix.GroupElement(448), quickfix.GroupElement(447), quickfix.GroupElement(452)})
+						fm.GetGroup(rg2)
 					}
 				}
 				_ = m.String()
